@@ -30,7 +30,7 @@ def make_bproj(wd):
     open(os.path.join(bproj, 'broken.py'), 'w').write('def (:\n')
     open(os.path.join(bproj, 'badutf.py'), 'wb').write(b'x = "\xff\xfe"\n')
     open(os.path.join(bproj, 'nul.py'), 'wb').write(b'x = 1\x00\n')
-    open(os.path.join(bproj, 'selfimp.py'), 'w').write('import selfimp\nvalue = selfimp.value\n')
+    open(os.path.join(bproj, 'selfimp.py'), 'w').write('import selfimp\nselfimp.y;y=1\ny\n')
     open(os.path.join(bproj, 'fine.py'), 'w').write('from broken import *\nfrom badutf import x\nok = 1\n')
     return bproj
 
@@ -125,7 +125,7 @@ def run(tier, replay=None):
                           'import selfimp\nselfimp.value\nselfimp.value.real\nfrom fine import *\nok\nx\nimport fine\nfine.ok\n'):
                 texts.append({'id': tid, 'source': btext, 'filename': os.path.join(bproj, 'main.py'), 'root': bproj, 'cursors': -1, 'seed': 0})
                 tid += 1
-            texts.append({'id': tid, 'source': 'import selfimp\nselfimp.value;value=1\nvalue\n', 'filename': os.path.join(bproj, 'selfimp.py'), 'root': bproj,
+            texts.append({'id': tid, 'source': 'import selfimp\nselfimp.y;y=1\ny\n', 'filename': os.path.join(bproj, 'selfimp.py'), 'root': bproj,
                           'cursors': -1, 'seed': 0})
             tid += 1
             # the filename argument is optional
